@@ -83,6 +83,7 @@ struct Func {
   std::vector<Reg> regs;  // all registers incl. args (args first)
   std::vector<Insn> insns;
   int nlabels = 0;
+  std::string raw_text;    // a passive function given as text (never executed by the reference evaluator)
   std::string lab_prefix;  // labels are module-scoped in MIR text: "L<prefix>_<n>"
   std::string lab_name (int l) const { return "L" + lab_prefix + "_" + std::to_string (l); }
   int new_label () { return nlabels++; }
@@ -244,6 +245,7 @@ static inline std::string insn_text (const Func &f, const Insn &in) {
 }
 
 static inline std::string func_text (const Func &f) {
+  if (!f.raw_text.empty ()) return f.raw_text;
   std::string s = f.name + ":\tfunc\t";
   bool first = true;
   for (int r : f.res) {
@@ -289,6 +291,9 @@ static inline std::string data_text (const DataItem &d) {
   case DataItem::REF: return s + "ref\t" + d.ref + strfmt (", %ld", (long) d.disp) + "\n";
   case DataItem::EXPR: return s + "expr\t" + d.ref + "\n";
   case DataItem::LREF:
+    if (!d.ref.empty ())  // labels of the function with this label prefix (the function right before the item)
+      return s + "lref\tL" + d.ref + strfmt ("_%d", d.lab) + (d.lab2 >= 0 ? ", L" + d.ref + strfmt ("_%d", d.lab2) : std::string ())
+             + (d.disp ? strfmt (", %ld", (long) d.disp) : "") + "\n";
     return s + strfmt ("lref\tL%d", d.lab) + (d.lab2 >= 0 ? strfmt (", L%d", d.lab2) : "")
            + (d.disp ? strfmt (", %ld", (long) d.disp) : "") + "\n";
   default: break;
